@@ -75,9 +75,15 @@ def check_archive(fname, data, doc, directory, ext, v, case_d):
                 e = xml_err(z.read(n))
                 if e: v.append((sig(n + "-not-well-formed"), e, case_d))
                 if man and ('full-path="%s"' % n).encode() not in man: v.append((sig("manifest-lacks-" + n), "manifest.xml does not list %s" % n, case_d))
-        for p in re.findall(rb'full-path="([^"]*)"', man):
-            p = p.decode()
-            if p not in ("/",) and not p.endswith("/") and p not in names: v.append((sig("manifest-entry-missing"), "manifest.xml lists %s which is not in the archive" % p, case_d))
+        missing = [p.decode() for p in re.findall(rb'full-path="([^"]*)"', man) if p.decode() not in ("/",) and not p.endswith(b"/") and p.decode() not in names]
+        if missing:
+            # images the library cannot read (no directory, remote, no such file) are the recorded finding; a manifest entry missing although every
+            # image of the source is readable, or more entries missing than there are unreadable images, is something else
+            urls = re.findall(rb'!\[[^\]]*\]\(([^) "]+)', doc) + re.findall(rb'(?m)^\[[^\]^#?>][^\]]*\]:[ \t]*<?([^ \t\n>]+)', doc)
+            dpath = directory.decode() if isinstance(directory, bytes) else directory
+            unreadable = [u for u in urls if not dpath or b"://" in u or not os.path.isfile(os.path.join(dpath, u.decode("latin-1")))]
+            kind = "manifest-entry-missing" if (all(m.startswith("Pictures/") for m in missing) and len(missing) <= len(unreadable)) else "manifest-entry-missing-for-present-member"
+            v.append((sig(kind), "manifest.xml lists %s which %s not in the archive" % (", ".join(missing), "is" if len(missing) == 1 else "are"), case_d))
         if "content.xml" in names:
             flat = mmd.convert_to_data(doc, ext, 5, 0, directory)
             if norm_odf(z.read("content.xml")) != norm_odf(flat):
